@@ -10,4 +10,7 @@ Useful == \/ \E s \in Socks : (ent[s] \in {"none", "listed"} /\ Open(s)) \/ (ent
           \/ \E s \in Socks, c \in DownChunks : TargetWrite(s, c)
           \/ (q # <<>> /\ CheckIn)
 SpecUseful == Init /\ [][IF \E s \in Socks : ReaderEnabled(s) THEN \E s \in Socks : Reader(s) ELSE Useful]_vars
+(* with the gate in the reader goroutine everything can be scheduled between its read and its act *)
+SpecGated == Init /\ [][Useful \/ \E s \in Socks : Reader(s)]_vars
+SpecGatedAll == Init /\ [][Next]_vars
 =============================================================================
